@@ -43,7 +43,8 @@ def run(res, tier):
     res.assumptions += [
         "a signal delivered inside a statement (library call) is equivalent to one delivered right after it: the handler only sets Display::abort, "
         "which is read at the loop head and before the final message only (grep-checked on every run)",
-        "8x8 grid, 8 steps per synchrotron period; laststep in {0,1,3,4}; the configuration axes tracking on/off exists on the binary side only",
+        "8x8 grid, 8 steps per synchrotron period; laststep in {0,1,3,4}; the configuration axes tracking on/off and RenormalizeCharge {default, 3, 2} exist on the binary side only (the label trace does not depend on them)",
+        "the final record of every behaviour is compared, bit for bit, with the record of the step reached in a run of the same physics that writes every step",
         "SIGINT is raised synchronously at the hook (std::raise), i.e. the real handler installed by main() runs",
         "every third behaviour is replayed on a process that inherited SIGINT as 'ignored' (what a background job of a non-interactive shell gets): main() installs its handler regardless, so the model's behaviour must be observed there too"]
     flag_readers(res)
@@ -69,12 +70,22 @@ def run(res, tier):
         tot_states += st["distinct"]
         tot_trans += st["states"]      # TLC's "states generated" counts one per explored transition (plus the initial states)
         # uninterrupted reference per configuration
+        # binary-side axis: periodic charge renormalisation (every 3rd / every 2nd step, or the default) - the final block decides about it like the loop head does
+        RENORM = [None, 3, 2]
+        for i, t in enumerate(terms):
+            t["cfg"] = dict(t["cfg"], renorm=RENORM[i % 3])
+
         def key(c):
-            return (c["last"], c["outstep"], c["h5save"], c["wake"], c["drf"])
+            return (c["last"], c["outstep"], c["h5save"], c["wake"], c["drf"], c.get("renorm"))
         cfgs = {key(t["cfg"]): t["cfg"] for t in terms}
         refs = {}
         for k, ob in zip(cfgs, pl.pmap(lambda kc: conform.observe(exe, kc[1], [], wd, "ref_%s_%d" % (name, abs(hash(kc[0])))), list(cfgs.items()))):
             refs[k] = ob
+        # the run of the same physics that writes every step (for the final-record oracle)
+        dkeys = sorted(set((c["wake"], c["drf"], c.get("renorm")) for c in cfgs.values()), key=str)
+        dense = {}
+        for k, ob in zip(dkeys, pl.pmap(lambda k: conform.observe(exe, dict(last=max(lasts), outstep=1, h5save=1, wake=k[0], drf=k[1], renorm=k[2]), [], wd, "dense_%s_%d" % (name, abs(hash(k)))), dkeys)):
+            dense[k] = ob
 
         def do(it):
             i, t = it
@@ -83,7 +94,10 @@ def run(res, tier):
             ign = (i % 3 == 2)
             ob = conform.observe(exe, t["cfg"], t["sigAt"], wd, "%s_%d" % (name, i), use_track, inherit_ignored=ign)
             ref = refs[key(t["cfg"])] if not use_track else None
-            return t, ob, conform.compare(t, ob, ref), (use_track, ign)
+            probs = conform.compare(t, ob, ref)
+            if not use_track:
+                probs += conform.final_record_problems(t, ob, dense[(t["cfg"]["wake"], t["cfg"]["drf"], t["cfg"].get("renorm"))])
+            return t, ob, probs, (use_track, ign)
         for t, ob, probs, (tr, ign) in pl.pmap(do, list(enumerate(terms))):
             tot_traces += 1
             case = "cfg=%s signals-at-hits=%s%s%s" % (t["cfg"], t["sigAt"], " tracking" if tr else "", " sigint-inherited-ignored" if ign else "")
